@@ -21,6 +21,7 @@ ASSUMPTIONS = ["operands well-formed (C08)", "mantissas shorter than 2^32-18 dig
                "natural-number routines exact (C06) and word kernels correct (C07)"]
 
 ARITH = ("Add", "Sub", "Mul", "Quo")
+JUDGE_STATS = {}
 
 
 def coq_op(o):
@@ -73,9 +74,9 @@ def boundary_coeff(rng, p):
             head = head[:-1] + rng.choice("13579")
         if head[0] == "0":
             head = "1" + head[1:]
-    rd = rng.choice("0455569")
+    rd = rng.choice("04555556999")
     tail_len = rng.choice([0, 0, 1, 2, 17, 18, 19, 20, 37, 38, 39, rng.randint(0, 60)])
-    kind = rng.randint(0, 3)
+    kind = rng.choice([0, 0, 0, 1, 2, 3])
     if kind == 0:
         tail = "0" * tail_len
     elif kind == 1 and tail_len > 0:
@@ -228,6 +229,8 @@ def exact_result(opn, xs):
 def judge(cases, g, m, want_ops=("Add", "Sub", "Mul", "Quo", "Set", "Neg", "Abs", "SetPrec")):
     """independent exact-rational oracle on the implementation's observations"""
     fails = []
+    JUDGE_STATS["judged_ops"] = 0
+    JUDGE_STATS["wf_checked"] = 0
     for c in cases:
         if "vars" not in c:
             continue
@@ -241,10 +244,12 @@ def judge(cases, g, m, want_ops=("Add", "Sub", "Mul", "Quo", "Set", "Neg", "Abs"
             msg = None
             if outcome == "ok":
                 for v in vs:
+                    JUDGE_STATS["wf_checked"] += 1
                     w = pyspec.wf(v)
                     if w:
                         msg = "result not canonical: " + w
                 if msg is None and opn in want_ops:
+                    JUDGE_STATS["judged_ops"] += 1
                     msg = judge_op(opn, t, prev, vs)
             if msg:
                 fails.append((c, "implementation output violates the rounding specification at step %d (%s): %s" % (i, o, msg),
